@@ -688,7 +688,223 @@ theorem mirror_returned_surface_private (infl : List (List K)) (n : Nat) (ops : 
     simpa [Spec.acts, spec, acts] using this
   rw [h1, h2]
 
+/-- **The surface is a function of the current actuator vector only** (what seeded regression C14-9
+violates).  Take any two histories whatsoever — on the same mirror or on two different mirror
+objects, with any values commanded and withdrawn on the way, any number of reads in between.  If
+they end with the same influence functions and the same current actuator values, the two
+mirrors report the same surface.  No algebraic law of the scalar is used, so this holds verbatim
+for scalar domains with a non-number (`Ext`, IEEE NaN): a NaN that has been withdrawn leaves no
+trace. -/
+theorem surface_history_free (infl₁ infl₂ : List (List K)) (n₁ n₂ : Nat) (ops₁ ops₂ : List (Op K)) :
+    let m₁ := (run (init infl₁ n₁) ops₁).1
+    let m₂ := (run (init infl₂ n₂) ops₂).1
+    m₁.infl = m₂.infl → acts m₁ = acts m₂ → (read m₁).2 = (read m₂).2 := by
+  intro m₁ m₂ hi ha
+  rw [read_snd _ (mirror_cache_invariant infl₁ n₁ ops₁), read_snd _ (mirror_cache_invariant infl₂ n₂ ops₂), hi, ha]
+
+/-- … in particular the surface of a mirror with any past equals the surface of a **fresh mirror**
+that is given the same influence functions and the same actuator vector (the comparison the
+harness makes on the running code after every step of an extreme history). -/
+theorem surface_eq_fresh_mirror (infl : List (List K)) (n : Nat) (ops : List (Op K)) :
+    let m := (run (init infl n) ops).1
+    (run (init m.infl m.nmodes) [.assign (acts m), .read]).2 = [(read m).2] := by
+  intro m
+  have fresh : ∀ (i : List (List K)) (k : Nat) (a : List K),
+      (spec (init i k)).run [.assign a, .read] = [matvec i a] := by
+    intro i k a
+    simp [Spec.run, Spec.step, Spec.acts, spec, init]
+  rw [mirror_surface_inv, read_snd _ (mirror_cache_invariant infl n ops), fresh]
+
+/-- the same statements hold over rationals extended by a non-number -/
+example (infl : List (List (Ext Rat))) (n : Nat) (ops : List (Op (Ext Rat))) :
+    let m := (run (init infl n) ops).1
+    (run (init m.infl m.nmodes) [.assign (acts m), .read]).2 = [(read m).2] :=
+  surface_eq_fresh_mirror infl n ops
+
+/-! #### `set_segment_actuators` / `get_segment_actuators` -/
+
+theorem acts_edit_cur (m : Mirror K) (i : Nat) (v : K) :
+    acts (step m (.edit m.cur i v)).1 = (acts m).set i v := by
+  show (m.heap.modify m.cur fun a => a.set i v).getD m.cur [] = (m.heap.getD m.cur []).set i v
+  by_cases h : m.cur < m.heap.length
+  · simp [List.getD_eq_getElem?_getD, List.getElem?_modify, h]
+  · have h' : m.heap.length ≤ m.cur := Nat.le_of_not_lt h
+    simp [List.getD_eq_getElem?_getD, List.getElem?_modify, List.getElem?_eq_none h']
+
+theorem cur_edit (m : Mirror K) (h i : Nat) (v : K) : (step m (.edit h i v)).1.cur = m.cur := rfl
+
+theorem acts_setSegment (m : Mirror K) (nseg id : Nat) (p t tl : K) :
+    acts (setSegment m nseg id p t tl) =
+      (((acts m).set id p).set (id + nseg) t).set (id + 2 * nseg) tl := by
+  unfold setSegment
+  have h1 := acts_edit_cur m id p
+  have h2 := acts_edit_cur (step m (.edit m.cur id p)).1 (id + nseg) t
+  rw [cur_edit] at h2
+  have h3 := acts_edit_cur (step (step m (.edit m.cur id p)).1 (.edit m.cur (id + nseg) t)).1 (id + 2 * nseg) tl
+  rw [cur_edit, cur_edit] at h3
+  rw [h3, h2, h1]
+
+/-- **`get_segment_actuators` returns what `set_segment_actuators` stored, and no other segment
+moves**, for a mirror of `nseg` segments (actuator vector `[pistons, tips, tilts]` of length
+`3·nseg`) in any state; the mirror keeps holding the same array object, its influence functions
+are untouched.  (As three in-place edits the operation is covered by `mirror_surface_inv`: the next
+read returns `IF ·` the new vector.) -/
+theorem segment_roundtrip (m : Mirror K) (nseg id : Nat) (p t tl : K) (hid : id < nseg)
+    (hlen : (acts m).length = 3 * nseg) :
+    getSegment (setSegment m nseg id p t tl) nseg id = (p, t, tl) ∧
+    (∀ j, j < nseg → j ≠ id → getSegment (setSegment m nseg id p t tl) nseg j = getSegment m nseg j) ∧
+    (setSegment m nseg id p t tl).cur = m.cur ∧ (setSegment m nseg id p t tl).infl = m.infl := by
+  refine ⟨?_, ?_, rfl, rfl⟩
+  · unfold getSegment
+    rw [acts_setSegment]
+    have e1 : id < (acts m).length := by omega
+    have e2 : id + nseg < (acts m).length := by omega
+    have e3 : id + 2 * nseg < (acts m).length := by omega
+    have n1 : id + nseg ≠ id := by omega
+    have n2 : id + 2 * nseg ≠ id := by omega
+    have n3 : id + 2 * nseg ≠ id + nseg := by omega
+    have z : nseg ≠ 0 := by omega
+    have z2 : 2 * nseg ≠ nseg := by omega
+    simp [List.getD_eq_getElem?_getD, List.getElem?_set, List.getElem_set, e1, e2, e3, n1, n2, n3, z, z2]
+  · intro j hj hne
+    unfold getSegment
+    rw [acts_setSegment]
+    have a1 : id ≠ j := fun h => hne h.symm
+    have a2 : id + nseg ≠ j := by omega
+    have a3 : id + 2 * nseg ≠ j := by omega
+    have b1 : id ≠ j + nseg := by omega
+    have b2 : id + nseg ≠ j + nseg := by omega
+    have b3 : id + 2 * nseg ≠ j + nseg := by omega
+    have c1 : id ≠ j + 2 * nseg := by omega
+    have c2 : id + nseg ≠ j + 2 * nseg := by omega
+    have c3 : id + 2 * nseg ≠ j + 2 * nseg := by omega
+    simp [List.getD_eq_getElem?_getD, List.getElem?_set, List.getElem_set, a1, a2, a3, b1, b2, b3, c1, c2, c3]
+
+/-- the hypotheses of `segment_roundtrip` are satisfiable: a new mirror of two segments -/
+example : (1 : Nat) < 2 ∧ (acts (init [[(1 : Int), 0, 0, 0, 0, 0]] 6)).length = 3 * 2 := by decide
+
 end mirror
+
+/-! ### Phase read-outs on the executed definitions (`phase_for`, `forward`, `backward`) -/
+section phases
+variable {K : Type} [Field K] [DecidableEq K]
+
+theorem applyPhaseConj_applyPhase (e : List (PVal K)) (d : List K) (h : e.length = d.length) :
+    applyPhaseConj (applyPhase e d) d = e := by
+  induction e generalizing d with
+  | nil => cases d <;> rfl
+  | cons x xs ih =>
+    cases d with
+    | nil => simp at h
+    | cons t ts =>
+      have := ih ts (by simpa using h)
+      simp only [applyPhase, applyPhaseConj, List.zipWith_cons_cons] at this ⊢
+      rw [this]
+      cases x
+      simp
+
+theorem power_applyPhase (nsq : K → K) (e : List (PVal K)) (d : List K) (h : e.length = d.length) :
+    power nsq (applyPhase e d) = power nsq e := by
+  unfold power
+  congr 1
+  induction e generalizing d with
+  | nil => cases d <;> rfl
+  | cons x xs ih =>
+    cases d with
+    | nil => simp at h
+    | cons t ts =>
+      have := ih ts (by simpa using h)
+      simp only [applyPhase, List.zipWith_cons_cons, List.map_cons] at this ⊢
+      rw [this]
+
+/-- **`phase_for`, `forward` and `backward` see `IF · actuators`** in every reachable state: the
+phase is `2π · (2 · IF·a / λ)` and the reflected field is the incoming one times `exp(±2πi ·` that
+`)` — stated about the definitions the driver executes for `C14 mirror phase / forward / backward`. -/
+theorem mirror_phase_ideal (infl : List (List K)) (n : Nat) (ops : List (Op K)) (wl : K)
+    (e : List (PVal K)) :
+    let m := (run (init infl n) ops).1
+    (readPhase wl m).2 = phaseTurns wl (matvec m.infl (acts m)) ∧
+    (forward wl e m).2 = applyPhase e (phaseTurns wl (matvec m.infl (acts m))) ∧
+    (backward wl e m).2 = applyPhaseConj e (phaseTurns wl (matvec m.infl (acts m))) := by
+  intro m
+  have hm := read_snd m (mirror_cache_invariant infl n ops)
+  refine ⟨?_, ?_, ?_⟩
+  · show phaseTurns wl (read m).2 = _
+    rw [hm]
+  · show applyPhase e (phaseTurns wl (read m).2) = _
+    rw [hm]
+  · show applyPhaseConj e (phaseTurns wl (read m).2) = _
+    rw [hm]
+
+/-- **`backward ∘ forward = id`** on the executed definitions, in every reachable state of the
+mirror and for every field on the mirror's grid: propagating a wavefront through the mirror and
+back returns it unchanged (the second evaluation of `surface` — a cache hit or not — yields the
+same array), and **`forward` conserves the power** `Σ|E|²` (any squared modulus `nsq`). -/
+theorem mirror_backward_forward_id (infl : List (List K)) (n : Nat) (ops : List (Op K)) (wl : K)
+    (e : List (PVal K)) (nsq : K → K) :
+    let m := (run (init infl n) ops).1
+    e.length = m.infl.length →
+    (backward wl (forward wl e m).2 (forward wl e m).1).2 = e ∧
+    power nsq (forward wl e m).2 = power nsq e ∧
+    power nsq (backward wl e m).2 = power nsq e := by
+  intro m hlen
+  have hinv := mirror_cache_invariant infl n ops
+  have hm := read_snd m hinv
+  have hinv' : Inv (read m).1 := read_inv m hinv
+  have hspec := read_fst_spec m
+  have h1 : (read m).1.infl = m.infl := congrArg Spec.infl hspec
+  have h2 : acts (read m).1 = acts m := by
+    have := congrArg Spec.acts hspec
+    simpa [Spec.acts, spec, acts] using this
+  have hm' : (read (read m).1).2 = matvec m.infl (acts m) := by
+    rw [read_snd _ hinv', h1, h2]
+  have hl : e.length = (phaseTurns wl (matvec m.infl (acts m))).length := by
+    simp [phaseTurns, double, matvec, hlen]
+  refine ⟨?_, ?_, ?_⟩
+  · show applyPhaseConj (applyPhase e (phaseTurns wl (read m).2)) (phaseTurns wl (read (read m).1).2) = e
+    rw [hm, hm']
+    exact applyPhaseConj_applyPhase e _ hl
+  · show power nsq (applyPhase e (phaseTurns wl (read m).2)) = _
+    rw [hm]
+    exact power_applyPhase nsq e _ hl
+  · show power nsq (applyPhaseConj e (phaseTurns wl (read m).2)) = _
+    rw [hm]
+    have : applyPhaseConj e (phaseTurns wl (matvec m.infl (acts m))) =
+        applyPhase e ((phaseTurns wl (matvec m.infl (acts m))).map (- ·)) := by
+      simp [applyPhase, applyPhaseConj, List.zipWith_map_right, sub_eq_add_neg]
+    rw [this]
+    exact power_applyPhase nsq e _ (by simpa using hl)
+
+/-- the hypothesis of `mirror_backward_forward_id` is satisfiable: a one-pixel field on a one-pixel mirror -/
+example : ([⟨(1 : ℚ), 0⟩] : List (PVal ℚ)).length = (run (init [[(1 : ℚ)]] 1) []).1.infl.length := rfl
+
+end phases
+
+/-! ### An incrementally updated surface is not history free (seeded regression C14-9) -/
+section Bad
+open HcipyVerif.Mirror.Bad
+
+/-- **`surface += IF·(actuators − cached)` keeps a withdrawn NaN for ever.**  Ten actuators, one
+pixel that sees all of them; the surface is read, actuator 3 is set (in place) to the non-number,
+the surface is read, the actuator is set back to 2 — or the mirror is flattened — and the surface
+is read again.  The incrementally updated surface still is `nan`; the specification, and the
+executed `read`, answer `2` (resp. `0`).  The same history with the finite value `7` in place of
+`nan` gives the right answers also incrementally — over exact numbers the update is harmless,
+which is why the harness has to command non-finite and out-of-scale values to see it. -/
+theorem bad_incremental_not_history_free :
+    runWith (readIncremental 10) (init [List.replicate 10 (Ext.fin (1 : Int))] 10)
+        [.read, .edit 0 3 .nan, .read, .edit 0 3 (.fin 2), .read] = [[.fin 0], [.nan], [.nan]] ∧
+    (run (init [List.replicate 10 (Ext.fin (1 : Int))] 10)
+        [.read, .edit 0 3 .nan, .read, .edit 0 3 (.fin 2), .read]).2 = [[.fin 0], [.nan], [.fin 2]] ∧
+    runWith (readIncremental 10) (init [List.replicate 10 (Ext.fin (1 : Int))] 10)
+        [.read, .edit 0 3 .nan, .read, .flatten, .read] = [[.fin 0], [.nan], [.nan]] ∧
+    (run (init [List.replicate 10 (Ext.fin (1 : Int))] 10)
+        [.read, .edit 0 3 .nan, .read, .flatten, .read]).2 = [[.fin 0], [.nan], [.fin 0]] ∧
+    runWith (readIncremental 10) (init [List.replicate 10 (Ext.fin (1 : Int))] 10)
+        [.read, .edit 0 3 (.fin 7), .read, .edit 0 3 (.fin 2), .read] = [[.fin 0], [.fin 7], [.fin 2]] := by
+  decide +kernel
+
+end Bad
 
 /-! ### The two classic broken caches are really broken -/
 
